@@ -11,20 +11,45 @@ HERE = os.path.dirname(os.path.dirname(os.path.abspath(__file__)))
 REPO = os.environ.get('CHESS_REPO', '/repo')
 
 
-def run_one(m):
+def load(props=None, ids=None):
+    """Mutants from selftest/mutants.json plus the confirmed seeded changes under seeded/ (as patches)."""
+    ms = json.load(open(os.path.join(HERE, 'selftest', 'mutants.json')))
+    sd = os.path.join(HERE, 'seeded')
+    for d in sorted(os.listdir(sd)) if os.path.isdir(sd) else []:
+        mp = os.path.join(sd, d, 'meta.json')
+        if not os.path.exists(mp):
+            continue
+        meta = json.load(open(mp))
+        if not meta.get('confirmed'):
+            continue
+        ms.append(dict(id=d, props=[meta['property']], patch=os.path.join(sd, d, 'patch.diff'),
+                       expect=(meta.get('caught_by') or [meta['property']])[0]))
+    if props or ids:
+        ms = [m for m in ms if m['id'] in (ids or ()) or any(p in (props or ()) for p in m['props'])]
+    return ms
+
+
+def run_one(m, repo=None):
+    repo = repo or REPO
     d = tempfile.mkdtemp(prefix='chess-mut-')
     try:
-        subprocess.run(['rsync', '-a', '--exclude', 'target', '--exclude', '.git', REPO + '/', d + '/'], check=True)
-        p = os.path.join(d, m['file'])
-        s = open(p).read()
-        if s.count(m['old']) < 1:
-            return m['id'], 'skipped', 'pattern not found'
-        s = s.replace(m['old'], m['new'], 1)
-        open(p, 'w').write(s)
+        subprocess.run(['rsync', '-a', '--exclude', 'target', '--exclude', '.git', repo + '/', d + '/'], check=True)
+        if 'patch' in m:
+            r = subprocess.run(['patch', '-p1', '-s', '--no-backup-if-mismatch', '-i', m['patch']], cwd=d,
+                               stdout=subprocess.PIPE, stderr=subprocess.STDOUT, text=True)
+            if r.returncode != 0:
+                return m['id'], 'skipped', 'patch does not apply'
+        else:
+            p = os.path.join(d, m['file'])
+            s = open(p).read()
+            if s.count(m['old']) < 1:
+                return m['id'], 'skipped', 'pattern not found'
+            s = s.replace(m['old'], m['new'], 1)
+            open(p, 'w').write(s)
         res = []
         status = 'missed'
         for prop in m['props']:
-            r = subprocess.run([os.path.join(HERE, 'check'), prop, '--repo', d, '--no-evidence'],
+            r = subprocess.run([os.path.join(HERE, 'check'), prop, '--repo', d, '--no-evidence', '--tier', 'quick'],
                                stdout=subprocess.PIPE, stderr=subprocess.STDOUT, text=True)
             out = r.stdout
             lines = [l for l in out.splitlines() if l.startswith('  C') or 'VIOLATION' in l or 'INCONCLUSIVE' in l]
@@ -47,11 +72,17 @@ def run_one(m):
         shutil.rmtree(d, ignore_errors=True)
 
 
+def run_for(prop, repo, jobs=8):
+    """All mutants and seeds of one property against scratch copies of `repo`; list of (id, status, detail)."""
+    ms = load(props=[prop])
+    ms = [dict(m, props=[prop]) for m in ms]
+    with cf.ThreadPoolExecutor(max_workers=jobs) as ex:
+        return list(ex.map(lambda m: run_one(m, repo), ms))
+
+
 def main():
-    ms = json.load(open(os.path.join(HERE, 'selftest', 'mutants.json')))
     sel = sys.argv[1:]
-    if sel:
-        ms = [m for m in ms if m['id'] in sel or any(p in sel for p in m['props'])]
+    ms = load(props=sel, ids=sel) if sel else load()
     bad = 0
     with cf.ThreadPoolExecutor(max_workers=int(os.environ.get('SELFTEST_JOBS', '4'))) as ex:
         for mid, status, detail in ex.map(run_one, ms):
